@@ -107,11 +107,14 @@ def group_of(t):
 
 # ------------------------------------------------------------------------------------------------ calls
 
-def do_call(t, via):
+def do_call(t, via, rec=None):
     ref = lib.parse_reference(t['ref']) if t.get('ref') else None
     if via == 'helper':
         return lib.canon(lib.call_helper(t['kind'], t['query'], t['culture'], t['opt'], ref))
-    m = lib.get_model(t['kind'], t['culture'], t['opt'])
+    if rec is not None:
+        m = getattr(rec, lib.KINDS[t['kind']][4])(t['culture'], True)
+    else:
+        m = lib.get_model(t['kind'], t['culture'], t['opt'])
     return lib.canon(lib.model_parse(m, t['kind'], t['query'], ref))
 
 
@@ -297,13 +300,38 @@ def gen_plan(prop, run_seed, tier, ctx):
                 step = 1 + dec.choice('fault-step', k_hat if fk != 'alloc-fail-ctor' else max(20, int(est.get('ctor:' + kind, 3000))))
                 op['fault'] = {'kind': fk, 'step': step}
         clients.append({'cid': cid, 'placement': 'main' if cid == 0 and dec.choice('main', 2) else 'pooled', 'ops': ops})
+    # shared recogniser objects: one Recognizer instance used by several clients (a service keeps one per process)
+    shared = []
+    if dec.chance('shared-recs', 0.5):
+        kinds_used = sorted({(pool[o['tuple']]['kind'], pool[o['tuple']]['opt']) if o['op'] == 'call' else (o['kind'], o['opt'])
+                             for c in clients for o in c['ops'] if o['op'] in ('call', 'get')})
+        for kind, opt in dec.sample('shared-kinds', kinds_used, 1 + dec.choice('n-shared', 2)):
+            shared.append({'rclass': lib.KINDS[kind][1], 'kind': kind, 'opt': opt,
+                           'target': ['en-us', None, 'fr-fr', 'zh-cn'][dec.choice('sh-target', 4)]})
+        for c in clients:
+            for o in c['ops']:
+                if o['op'] == 'get' or (o['op'] == 'call' and o['via'] == 'model'):
+                    kind, opt = (o['kind'], o['opt']) if o['op'] == 'get' else (pool[o['tuple']]['kind'], pool[o['tuple']]['opt'])
+                    cands = [i for i, sh in enumerate(shared) if sh['rclass'] == lib.KINDS[kind][1] and sh['opt'] == opt]
+                    if cands and dec.choice('use-shared', 3):
+                        o['rec'] = cands[dec.choice('which-shared', len(cands))]
+                        if o['op'] == 'get':
+                            o['target'] = shared[o['rec']]['target']
+                            o['use_target'] = o['culture'] is None
     total_est = sum(est.get(pool[o['tuple']]['kind'] if o['op'] == 'call' else o.get('kind', 'Number'), 2000)
                     for c in clients for o in c['ops'] if o['op'] in ('call', 'get'))
-    if dec.choice('sched', 2) == 0:
+    sk = dec.choice('sched', 3)
+    if sk == 0:
         sched = {'kind': 'pct', 'depth': 1 + dec.choice('depth', 4), 'k': max(50, int(total_est))}
-    else:
+    elif sk == 1:
         sched = {'kind': 'walk', 'p': [1e-4, 3e-4, 1e-3, 3e-3][dec.choice('p-switch', 4)]}
-    return {'clients': clients, 'sched': sched, 'cold': cold, 'cold_cultures': sorted({g[1] for g in focus if g[0] == 'DateTime'}), 'sched_seed': derive_seed(run_seed, 'sched'),
+    else:
+        sched = {'kind': 'rr', 'q': [30, 100, 300, 1000][dec.choice('quantum', 4)]}
+    dirty = None
+    if not fault_free:
+        dirty = {'stall': [0.0, 0.3, 0.6][dec.choice('dirty-stall-p', 3)] if enabled['stall'] or dec.choice('ds', 2) else 0.0,
+                 'abort': [0.0, 0.15, 0.4][dec.choice('dirty-abort-p', 3)] if enabled['abort'] else 0.0}
+    return {'clients': clients, 'sched': sched, 'cold': cold, 'shared': shared, 'dirty': dirty, 'cold_cultures': sorted({g[1] for g in focus if g[0] == 'DateTime'}), 'sched_seed': derive_seed(run_seed, 'sched'),
             'fault_free': fault_free}
 
 
@@ -346,6 +374,9 @@ def gen_get_op(dec, ctx, focus):
 
 # ------------------------------------------------------------------------------------------------ execution
 
+RESTORED = {'n': 0}
+
+
 def evict(scope, focus_cultures=None):
     """Process restart (nothing durable): the cache is lost. 'full' drops everything; 'light' keeps the date-time models
     (1-5 s each to rebuild) — the state 'restarted, date-time already requested again' — so that cold starts stay cheap."""
@@ -355,6 +386,28 @@ def evict(scope, focus_cultures=None):
         if k.model_type != 'DateTimeModel' or (scope == 'full' and (not focus_cultures or k.culture in focus_cultures)):
             gone.append(cache.pop(k))
     barrier.on_evict(gone)
+    # a restart loses every process-wide table, not only the model cache: class-level / module-level containers of the
+    # library go back to their contents right after import (lazily filled tables start empty again)
+    RESTORED['n'] += barrier.restore_boot_state(skip=(cache,))
+
+
+KIND_OF_MODEL_TYPE = {v[2]: k for k, v in lib.KINDS.items()}
+
+
+def restore_cache(keys):
+    """Replay: put the process-wide cache into the recorded warm/cold state (which keys were cached when the run
+    started), untraced, so that step counts inside ops match the recording."""
+    want = {(k[0], k[1], int(k[2])) for k in keys}
+    cache = lib.cache_dict()
+    gone = [cache.pop(k) for k in list(cache) if (k.model_type, k.culture, int(k.options)) not in want]
+    if gone:
+        barrier.on_evict(gone)
+    have = {(k.model_type, k.culture, int(k.options)) for k in cache}
+    for (mt, c, o) in sorted(want - have):
+        kind = KIND_OF_MODEL_TYPE.get(mt)
+        if kind is not None:
+            rec = lib.recognizer_class(kind)(c, lib.options_value(kind, o), False)
+            rec.model_factory.try_get_model(mt, c, rec.options)
 
 
 class Env:
@@ -392,6 +445,7 @@ class Env:
             barrier.on_cache_insert(model)
         ModelFactory.register_model_in_cache = register_model_in_cache
         self.n_barrier_classes = barrier.install()
+        self.n_boot_containers = barrier.snapshot_boot_state()
         self.installed = True
 
 
@@ -400,14 +454,19 @@ class CtorFaultPolicyMixin:
 
 
 def make_policy(plan, n_clients, recorded=None):
-    if recorded is not None:
+    if recorded is not None and recorded.get('switches') is not None:
         return baton.ReplayPolicy(recorded['first'], [list(s) for s in recorded['switches']],
-                                  [f[1] for f in recorded['finishes'] if f[1] is not None])
+                                  [f[1] for f in recorded['finishes'] if f[1] is not None], recorded.get('faults_fired'))
     dec = Decider(plan['sched_seed'])
     s = plan['sched']
     if s['kind'] == 'pct':
-        return baton.PCTPolicy(dec, n_clients, s['depth'], s['k'])
-    return baton.RandomWalkPolicy(dec, s['p'])
+        pol = baton.PCTPolicy(dec, n_clients, s['depth'], s['k'])
+    elif s['kind'] == 'rr':
+        pol = baton.RoundRobinPolicy(dec, s['q'])
+    else:
+        pol = baton.RandomWalkPolicy(dec, s['p'])
+    pol.dirty = plan.get('dirty')
+    return pol
 
 
 def execute_plan(prop, plan, env, recorded=None):
@@ -416,6 +475,9 @@ def execute_plan(prop, plan, env, recorded=None):
     pool, golden = ctx['pool'], ctx['golden']
     if plan['cold']:
         evict(plan['cold'], plan.get('cold_cultures'))
+    if recorded is not None and recorded.get('cache_keys') is not None:
+        restore_cache(recorded['cache_keys'])
+    cache_keys = sorted([k.model_type, k.culture, int(k.options)] for k in lib.cache_dict())
     barrier.rebuild(lib.cache_dict())
     clients = [baton.Client(c['cid'], c['ops'], c['placement']) for c in plan['clients']]
     policy = make_policy(plan, len(clients), recorded)
@@ -434,8 +496,15 @@ def execute_plan(prop, plan, env, recorded=None):
     sched = baton.Baton(clients, policy, step_cap=ctx.get('step_cap', 5_000_000), hang_s=ctx.get('hang_s', 900))
     env.sched = sched
     barrier.STATE['sched'] = sched
+    sched.dirty_probe = barrier.container_dirty
+    barrier.rebase()
     hits0 = barrier.STATE['hits']
     ctor0 = dict(env.ctor_count)
+
+    shared_recs = []
+    for sh in plan.get('shared') or []:
+        # built before the clients start (untraced, cache untouched: lazy_initialization=False builds no model)
+        shared_recs.append(lib.recognizer_class(sh['kind'])(sh['target'], lib.options_value(sh['kind'], sh['opt']), False))
 
     def exec_op(client, op):
         rec = {'op': op['op'], 'thread': threading.current_thread().name, 'outcome': None}
@@ -451,10 +520,10 @@ def execute_plan(prop, plan, env, recorded=None):
                 rec['outcome'] = 'ok'
             elif op['op'] == 'call':
                 t = pool[op['tuple']]
-                rec['result'] = safe_call(do_call, t, op['via'])
+                rec['result'] = safe_call(do_call, t, op['via'], shared_recs[op['rec']] if 'rec' in op else None)
                 rec['outcome'] = 'ok'
             elif op['op'] == 'get':
-                rec.update(exec_get(op, ctx))
+                rec.update(exec_get(op, ctx, shared_recs[op['rec']] if 'rec' in op else None))
         except baton.Abort:
             rec['outcome'] = 'aborted'
         except MemoryError:
@@ -469,7 +538,7 @@ def execute_plan(prop, plan, env, recorded=None):
         env.sched = None
         barrier.STATE['sched'] = None
         sys.settrace(None)
-    faulted = {(f[0], f[1]) for f in sched.faults_fired}
+    faulted = {(f[0], f[1]) for f in sched.faults_fired if f[3] not in ('stall', 'dirty-stall')}
     violations = []
     results = []
     for c in clients:
@@ -499,22 +568,22 @@ def execute_plan(prop, plan, env, recorded=None):
                 violations.append(v)
     ctor_delta = {('%s|%s' % k): env.ctor_count[k] - ctor0.get(k, 0) for k in env.ctor_count if env.ctor_count[k] != ctor0.get(k, 0)}
     record = {
-        'first': sched.first_cid,
+        'first': sched.first_cid, 'cache_keys': cache_keys,
         'switches': sched.switches, 'finishes': sched.finishes, 'faults_fired': sched.faults_fired,
-        'steps': sched.global_step, 'barrier_hits': barrier.STATE['hits'] - hits0, 'capped': sched.capped,
+        'steps': sched.global_step, 'barrier_hits': barrier.STATE['hits'] - hits0, 'dirty_hits': sched.dirty_hits, 'capped': sched.capped,
         'results': results, 'ctor': ctor_delta, 'sites': sorted(sched.sites),
         'divergent': getattr(policy, 'divergent', 0),
     }
     return record, violations
 
 
-def exec_get(op, ctx):
+def exec_get(op, ctx, shared_rec=None):
     kind = op['kind']
     cls = lib.recognizer_class(kind)
     o = lib.options_value(kind, op['opt'])
     out = {}
     try:
-        rec = cls(op['target'], o, op['lazy'])
+        rec = shared_rec if shared_rec is not None else cls(op['target'], o, op['lazy'])
         if op['use_target']:
             model = getattr(rec, lib.KINDS[kind][4])(None, op['fallback'])
         else:
@@ -622,7 +691,7 @@ def run_batch(job):
            'barrier_sites': {}, 'ctor': {}, 'double_ctor': 0, 'placements': {}, 'threads': {}, 'capped': 0,
            'clock_reads_in_explicit_calls': 0, 'cold_runs': 0, 'restarts': 0, 'faulted_ops': 0, 'checked_ops': 0,
            'swallowed_abort': 0, 'dt_focus': sorted(ctx['dt_focus']), 'barrier_classes': env.n_barrier_classes,
-           'sched_kinds': {}, 'culture_classes': {}, 'get_outcomes': {}, 'observed_steps': {}}
+           'sched_kinds': {}, 'culture_classes': {}, 'get_outcomes': {}, 'observed_steps': {}, 'boot_containers': env.n_boot_containers}
     est = ctx['step_estimate']
     for idx in range(job['first'], job['first'] + job['count']):
         run_seed = derive_seed(seed, prop, idx)
@@ -632,6 +701,7 @@ def run_batch(job):
         rep['steps'] += record['steps']
         rep['switches'] += len(record['switches'])
         rep['barrier_hits'] += record['barrier_hits']
+        rep['dirty_hits'] = rep.get('dirty_hits', 0) + record['dirty_hits']
         rep['capped'] += int(record['capped'])
         rep['cold_runs'] += int(bool(plan['cold']))
         rep['sched_kinds'][plan['sched']['kind']] = rep['sched_kinds'].get(plan['sched']['kind'], 0) + 1
@@ -684,11 +754,13 @@ def run_batch(job):
         for v in violations:
             v.update({'run': idx, 'batch': job['batch'], 'plan': plan,
                       'recorded': {'first': record['first'], 'switches': record['switches'],
-                                   'finishes': record['finishes']}})
+                                   'finishes': record['finishes'], 'cache_keys': record['cache_keys'],
+                                   'faults_fired': record['faults_fired']}})
             rep['violations'].append(v)
         if len(rep['violations']) >= 4:
             break
     rep['barrier_sites'] = dict(barrier.STATE['sites'])
+    rep['process_tables_reset_by_restart'] = RESTORED['n']
     return rep
 
 
